@@ -443,6 +443,10 @@ func genC11(t *rapid.T) *Scenario {
 	if sc.Stage == "emit" && rapid.IntRange(0, 2).Draw(t, "slowf") == 0 {
 		sc.T.Slow = rapid.SliceOfN(rapid.IntRange(0, 3), 1, 4).Draw(t, "slow")
 	}
+	if sc.Stage == "unfold" && rapid.IntRange(0, 2).Draw(t, "slowstep") == 0 {
+		sc.T.Slow = rapid.SliceOfN(rapid.IntRange(1, 3), 1, 4).Draw(t, "slow") // every step takes (virtual) time
+	}
+	sc.T.Drain = rapid.IntRange(0, 3).Draw(t, "drain") == 0
 	// consumer: always ready, or with idle gaps
 	if rapid.IntRange(0, 2).Draw(t, "idle") > 0 {
 		sc.T.Consume = genPattern(t, "consume", 6, 8, 4)
